@@ -109,6 +109,92 @@ pub fn run_batch_in<const A: usize>(su: Setup, multi: bool, items: &[Item], scri
     Ok((order, rng.draws(), rng.bits()))
 }
 
+/// Several consecutive steps on ONE environment, batch k = `n` fresh limit orders shuffled under
+/// `scripts[k]`; returns the processing order of every step. (An environment that carries
+/// shuffle state from one step to the next shows up here, not in single-step runs.)
+pub fn run_sequence<const A: usize>(multi: bool, n: usize, scripts: &[Vec<Ans>]) -> Result<Vec<(Vec<usize>, u64)>, String> {
+    let ticks = vec![1u32; A];
+    let mut env = AnyEnv::<A, 3>::make(multi, 0, &ticks, 100_000, true);
+    let mut out = Vec::new();
+    for (k, script) in scripts.iter().enumerate() {
+        let start = env.book(0).get_time();
+        let mut ids = Vec::new();
+        for i in 0..n {
+            // distinct non-crossing bid prices: nothing trades, arrival stamps tell the order
+            ids.push(env.place(i % A, true, 1, 3, Some(10 + ((k * n + i) % 4000) as u32)).map_err(|_| "place")?);
+        }
+        let mut rng = ScriptRng::new(script.clone(), 1);
+        env.step(&mut rng);
+        let mut order = vec![usize::MAX; n];
+        for (i, (a, id)) in ids.iter().enumerate() {
+            let stamp = env.book(*a).order(*id).arr_time;
+            if stamp < start || stamp - start >= n as u64 {
+                return Err(format!("step {}: item {} carries time stamp {} outside [start, start+n) with start {}", k, i, stamp, start));
+            }
+            let pos = (stamp - start) as usize;
+            if order[pos] != usize::MAX {
+                return Err(format!("step {}: two instructions were processed at position {}", k, pos));
+            }
+            order[pos] = i;
+        }
+        out.push((order, rng.draws()));
+    }
+    Ok(out)
+}
+
+/// every pair of index scripts on two consecutive steps of equal batch size; and one long-lived
+/// environment (more than 8192 instructions over its life)
+fn multi_step<const A: usize>(acc: &Acc, multi: bool, nmax: usize, long_steps: usize, summary: &mut Vec<serde_json::Value>) {
+    for n in 2..=nmax {
+        let scripts = all_index_scripts(n);
+        let mut pairs = 0u64;
+        for s1 in &scripts {
+            for s2 in &scripts {
+                acc.execs.fetch_add(1, Ordering::Relaxed);
+                pairs += 1;
+                match util::subject(|| run_sequence::<A>(multi, n, &[s1.clone(), s2.clone()])).unwrap_or_else(Err) {
+                    Ok(v) => {
+                        for (k, sc) in [s1, s2].iter().enumerate() {
+                            let (lib, lib_draws) = rand_shuffle_order(n, sc, 1);
+                            if v[k].0 != lib || v[k].1 != lib_draws {
+                                acc.fail(
+                                    "order-depends-on-earlier-steps",
+                                    format!("step {} of two consecutive steps of {} instructions: processing order {:?} ({} draws), but the generator answers alone dictate {:?} ({} draws); earlier step's script {}", k, n, v[k].0, v[k].1, lib, lib_draws, script_json(s1)),
+                                    json!({"n": n, "multi": multi, "scripts": [script_json(s1), script_json(s2)]}),
+                                );
+                            }
+                        }
+                    }
+                    Err(e) => acc.fail("invalid-processing-positions", e, json!({"n": n, "multi": multi, "scripts": [script_json(s1), script_json(s2)]})),
+                }
+            }
+        }
+        summary.push(json!({"two_consecutive_steps_of": n, "multi_asset": multi, "script_pairs": pairs}));
+    }
+    // long-lived environment
+    let n = 7;
+    let all = all_index_scripts(n);
+    let scripts: Vec<Vec<Ans>> = (0..long_steps).map(|k| all[(k * 37 + 11) % all.len()].clone()).collect();
+    acc.execs.fetch_add(long_steps as u64, Ordering::Relaxed);
+    match util::subject(|| run_sequence::<A>(multi, n, &scripts)).unwrap_or_else(Err) {
+        Ok(v) => {
+            for (k, sc) in scripts.iter().enumerate() {
+                let (lib, lib_draws) = rand_shuffle_order(n, sc, 1);
+                if v[k].0 != lib || v[k].1 != lib_draws {
+                    acc.fail(
+                        "order-depends-on-earlier-steps",
+                        format!("step {} of a long-lived environment ({} instructions so far): processing order {:?} ({} draws), but the generator answers alone dictate {:?} ({} draws)", k, k * n, v[k].0, v[k].1, lib, lib_draws),
+                        json!({"n": n, "multi": multi, "step": k, "script_rule": "all_index_scripts(7)[(k*37+11) % 5040] for step k"}),
+                    );
+                    break;
+                }
+            }
+        }
+        Err(e) => acc.fail("invalid-processing-positions", e, json!({"n": n, "multi": multi, "long_run_steps": long_steps})),
+    }
+    summary.push(json!({"long_lived_environment_steps": long_steps, "batch": n, "instructions_over_its_life": long_steps * n, "multi_asset": multi}));
+}
+
 fn fact(n: usize) -> u128 {
     (1..=n as u128).product::<u128>().max(1)
 }
@@ -474,6 +560,10 @@ pub fn c15(tier: &str) -> i32 {
         content_independence_in::<2>(&acc, su, true, 3, &mut content);
     }
     out.set("other_environment_configurations", json!(setups));
+    let mut ms = Vec::new();
+    multi_step::<1>(&acc, false, if t { 5 } else { 4 }, if t { 2500 } else { 1300 }, &mut ms);
+    multi_step::<2>(&acc, true, if t { 5 } else { 4 }, if t { 2500 } else { 1300 }, &mut ms);
+    out.set("consecutive_steps", json!(ms));
     let execs = acc.execs.load(Ordering::Relaxed);
     out.set("states", json!(execs));
     out.set("transitions", json!(execs));
